@@ -436,8 +436,15 @@ def select(table: Table, *cols: Col | ColName | str) -> Pipeable:
                 "overwrite it in `mutate` or `summarize`."
             )
 
+    selected = [preprocess_arg(col, table) for col in cols]
+    seen = set()
+    for col in selected:
+        if col._uuid in seen:
+            raise ValueError(f"column `{col.ast_repr()}` is selected more than once")
+        seen.add(col._uuid)
+
     new = copy.copy(table)
-    new._ast = Select(table._ast, [preprocess_arg(col, table) for col in cols])
+    new._ast = Select(table._ast, selected)
 
     return new
 
@@ -812,8 +819,16 @@ def group_by(table: Table, *cols: Col | ColName | str, add=False) -> Pipeable:
         if isinstance(col, Col) and col._uuid not in table._cache.uuid_to_name:
             raise ValueError(f"cannot group by non-selected column `{col.ast_repr()}`")
 
+    # a column is a grouping column at most once (also when it is given twice or added to a grouping it is already part of)
+    grouped = set(table._cache.partition_by) if add else set()
+    group_cols = []
+    for col in (preprocess_arg(col, table) for col in cols):
+        if col._uuid not in grouped:
+            grouped.add(col._uuid)
+            group_cols.append(col)
+
     new = copy.copy(table)
-    new._ast = GroupBy(table._ast, [preprocess_arg(col, table) for col in cols], add)
+    new._ast = GroupBy(table._ast, group_cols, add)
 
     return new
 
